@@ -247,6 +247,8 @@ class State:
         self.calls = []      # (callee, [arg descriptors], result key)
         self.visited = ()
         self.epoch = {}      # memory root -> havoc counter
+        self.frozen = {}     # frozen pseudo-root -> (original prefix, was_havocked) : snapshot of an aggregate that
+                             # was copied from (aliased) and later overwritten at its source
 
     def clone(self):
         n = State()
@@ -257,6 +259,7 @@ class State:
         n.calls = list(self.calls)
         n.visited = self.visited
         n.epoch = dict(self.epoch)
+        n.frozen = dict(self.frozen)
         return n
 
 
@@ -393,6 +396,14 @@ class Executor:
             return v
         if sort is None:
             raise Untranslatable("read of %s with unknown type" % key)
+        for fz, (orig, havocked) in st.frozen.items():
+            if has_prefix(key, fz):
+                # a leaf of a snapshot that was never materialised: it still denotes the value the
+                # original place had before it was overwritten
+                okey = orig + key[len(fz):]
+                v = self.fresh("havoc-snap:" + okey, sort) if havocked else self.input_var(okey, sort)
+                st.store[key] = v
+                return v
         ep = havoc_epoch(st, key)
         if ep:
             v = self.fresh("havoc%d:%s" % (ep, key), sort)
@@ -418,9 +429,25 @@ class Executor:
         return self.read_key(st, place.key(), sort)
 
     def invalidate_aliases(self, st, key):
-        for pre, src in list(st.alias.items()):
-            if src == key or src.startswith(key + ".") or key.startswith(src + ".") or key.startswith(src + "@") or key.startswith(src + "#") or key.startswith(src + "["):
-                raise Untranslatable("write to %s while an aggregate copy of %s is live" % (key, src))
+        """Called before `key` (a leaf or an aggregate prefix) is overwritten: every live aggregate copy
+        that still reads lazily through `key` is re-pointed to a frozen snapshot of the old value."""
+        hit = [pre for pre, src in st.alias.items() if has_prefix(src, key) or has_prefix(key, src)]
+        if not hit:
+            return
+        for pre in hit:
+            src = st.alias[pre]
+            fz = "frozen%d:%s" % (next(self.counter), src)
+            for k, v in list(st.store.items()):
+                if has_prefix(k, src):
+                    st.store[fz + k[len(src):]] = v
+            # an alias chain below `src` keeps working: the frozen root inherits src's own alias, if any
+            for pre2, src2 in list(st.alias.items()):
+                if pre2 != pre and has_prefix(src, pre2):
+                    st.alias[fz] = src2 + src[len(pre2):]
+                    break
+            else:
+                st.frozen[fz] = (src, havoc_epoch(st, src) > 0)
+            st.alias[pre] = fz
 
     def write_place(self, st, fn, place, val, frame):
         for i, p in enumerate(place.projs):
@@ -437,6 +464,7 @@ class Executor:
         st.store[key] = val
 
     def clear_prefix(self, st, pre):
+        self.invalidate_aliases(st, pre)
         for k in [k for k in st.store if has_prefix(k, pre)]:
             del st.store[k]
         st.alias.pop(pre, None)
@@ -444,6 +472,7 @@ class Executor:
     def copy_aggregate(self, st, dst, src):
         if dst == src:
             return
+        self.invalidate_aliases(st, dst)
         for k in [k for k in st.store if k == dst or k[:len(dst) + 1] in (dst + ".", dst + "@", dst + "#", dst + "[")]:
             del st.store[k]
         st.alias.pop(dst, None)
